@@ -27,6 +27,7 @@ LABELS = {
 }
 PRE = [b"", b" ", b"x = ", b"abc;\n", b"1234567 ", b"\x00\x01 ", b"y = CreateObject(", b"call f(",
        # an earlier call of the same family that cannot be decoded / encoded (it must not stop the later, valid one from being reported)
+       b"x &amp;#65; y &amp;#x41;&amp;#66; ",          # doubly escaped references earlier in the text
        b"Dim s _\r\n  As String : s = _\n", b"a = 1 + _\r\n    2\r\n",          # VBA line continuations earlier in the text
        b"atob('YWI'); Base64Decode(\"Q\"); FromBase64String('A'); chrw(56000) & ", b"FromHexString('zz') unescape('%zz') chr(55296) "]
 SUF = [b"", b" ", b";", b"\n", b" tail", b")", b") : z", b" ", b" + y", b" & var_1", b",", b".", b"-x", b", next", b". Then"]
@@ -328,8 +329,9 @@ def run(prop: str, tier: str) -> int:
         for style in range(3):
             vals = [rng.randrange(256) for _ in range(505)]
             inputs.append(b",".join([b"%d", b"0x%02x", b" %d", b"\n%d"][(i * (style + 1)) % 4] % v for i, v in enumerate(vals)))
-        for period in (1, 3, 4):
-            key = rb(rng, period)
+        for period in (1, 3, 4, 0):
+            key = rb(rng, period) if period else b"\x21\x00\x43\x00"          # (a key with zero bytes in it)
+            period = period or 4
             plain = (b"This program cannot be run in DOS mode. " * 14)[:520]
             arr = b",".join(b"%d" % (c ^ key[i % period]) for i, c in enumerate(plain))
             inputs.append(arr + b" -bxor $key")
